@@ -8,6 +8,8 @@ for d in seeded/*/; do
   IDX=$((IDX+1)); [ $((IDX % NSL)) -eq "$SL" ] || continue
   name=$(basename "$d")
   checks=$(python3 -c "import json;print(' '.join(json.load(open('$d/meta.json'))['checks_that_catch_it']))")
+  # ONLY=<ID>: just the seeds recorded for that check, and only that check
+  if [ -n "${ONLY:-}" ]; then case " $checks " in *" $ONLY "*) checks="$ONLY";; *) continue;; esac; fi
   wt="$(mktemp -d /tmp/nv_sd_XXXXXX)"; rmdir "$wt"
   git -C /repo worktree add -q --detach "$wt" HEAD || continue
   cp /repo/src/nanite/_version.py "$wt/src/nanite/_version.py"
